@@ -1,6 +1,9 @@
 /* stubmod.c - stub iauthd module for C20 (module load / post-init / unload order).
  *
- * Compiled once (ctx.build.stubmod()) and COPIED to m1.so ... m6.so, so that every copy has
+ * Compiled in four variants (ctx.build.stubmod(variant)): with all three entry points, without
+ * module_post_init (-DNO_POSTINIT), without module_destructor (-DNO_DTOR), without both -- the two
+ * hooks are optional in the real project and src/module.c has its own paths for modules that
+ * lack them.  Each variant is COPIED once per module name (m1 ... m6), so that every copy has
  * its own inode, statics and dlopen handle.  The daemon under test is the real iauthd-c; the
  * subject is src/module.c.  Nothing here judges anything: the stub only declares what its
  * dependency file says and records that its entry points were called.
@@ -16,7 +19,9 @@
  *                      {"e":"ctor-begin","m":"m1"}  {"e":"ctor-end","m":"m1"}
  *                      {"e":"post-init","m":"m1"}   {"e":"dtor","m":"m1"}
  *                      {"e":"running"}
- *   VERIF_MODSTOP  if set: the first post-init of the process arms a zero-delay libevent timer.
+ *   VERIF_MODSTOP  if set: the first constructor of the process arms a zero-delay libevent timer
+ *                  (from the constructor, because a case may have no module with a post-init;
+ *                  main() creates ev_base before it loads any module).
  *                  Its callback can only run inside main()'s event_base_dispatch(), i.e. after
  *                  start-up has completed and the signal handlers are installed; it logs
  *                  "running" and sends the daemon its own documented clean-stop signal
@@ -76,6 +81,11 @@ __attribute__((visibility("default"))) void module_constructor(const char *name)
 
     strncpy(self_name, name, sizeof(self_name) - 1);
     ev("ctor-begin", name);
+    if (getenv("VERIF_MODSTOP") && !getenv("VERIF_MODSTOP_ARMED")) {
+        struct timeval tv = { 0, 0 };
+        setenv("VERIF_MODSTOP_ARMED", "1", 1);      /* process-wide: the copies share no statics */
+        event_base_once(ev_base, -1, EV_TIMEOUT, running_cb, NULL, &tv);
+    }
     f = fopen(getenv("VERIF_MODDEPS") ? getenv("VERIF_MODDEPS") : "/nonexistent", "r");
     while (f && fgets(line, sizeof line, f)) {
         char *c = strchr(line, ':'), *sv, *t;
@@ -100,17 +110,16 @@ __attribute__((visibility("default"))) void module_constructor(const char *name)
     ev("ctor-end", name);
 }
 
+#ifndef NO_POSTINIT
 __attribute__((visibility("default"))) void module_post_init(struct module *self)
 {
     ev("post-init", module_get_name(self));
-    if (getenv("VERIF_MODSTOP") && !getenv("VERIF_MODSTOP_ARMED")) {
-        struct timeval tv = { 0, 0 };
-        setenv("VERIF_MODSTOP_ARMED", "1", 1);      /* process-wide: the copies share no statics */
-        event_base_once(ev_base, -1, EV_TIMEOUT, running_cb, NULL, &tv);
-    }
 }
+#endif
 
+#ifndef NO_DTOR
 __attribute__((visibility("default"))) void module_destructor(void)
 {
     ev("dtor", self_name);
 }
+#endif
